@@ -144,6 +144,20 @@ pub fn execute(p: &Prog) -> Vec<String> {
             };
             let mut out = vec!["built".to_string()];
             for x in deltas {
+                // a bursty derived arrival model can release tens of thousands of jobs in a few hundred
+                // time units, and a lazily extrapolated cost curve does quadratic work in the job count:
+                // legitimate but slow, so such queries are skipped (identically in both builds)
+                match guard_with_budget(budget, || rbf.arrival_bound.number_arrivals(d(*x))) {
+                    Ok(n) if n > 4000 => {
+                        out.push(format!("skipped: {} jobs", n));
+                        continue;
+                    }
+                    Ok(_) => {}
+                    Err(e) => {
+                        out.push(format!("PANIC: {}", e));
+                        continue;
+                    }
+                }
                 out.push(fmt_res(guard_with_budget(budget, || {
                     (
                         su(rbf.service_needed(d(*x))),
